@@ -365,7 +365,7 @@ def evaluate(ctx, st, results):
             stray = [m for m in d.get("new_modules", []) if m not in imported and not any(i.startswith(m + ".") for i in imported)]
             if stray:
                 problems.append("modules appeared without an import event: %s" % stray[:4])
-            for k in ("cwd_changed", "scratch_changed", "env_changed", "classes_changed", "sys_path_changed"):
+            for k in ("cwd_changed", "scratch_changed", "env_changed", "classes_changed", "sys_path_changed", "module_attrs_changed"):
                 if d.get(k):
                     problems.append("%s: %s" % (k, d[k]))
             if c["kind"].startswith("xcfg-name:") and isinstance(o.get("probe"), list):
@@ -468,7 +468,7 @@ def replay(ctx, case):
     ctx.count(("replay", c["mode"]))
     for o in outs:
         probs = [w for w in (st.explain(ev, o.get("path")) for ev in o["events"]) if w]
-        for k in ("cwd_changed", "scratch_changed", "env_changed", "classes_changed", "sys_path_changed"):
+        for k in ("cwd_changed", "scratch_changed", "env_changed", "classes_changed", "sys_path_changed", "module_attrs_changed"):
             if o["diff"].get(k):
                 probs.append("%s: %s" % (k, o["diff"][k]))
         ctx.log("replayed:", o["outcome"], o["detail"][:100], "problems:", probs[:3], "probe:", o.get("probe"))
